@@ -217,12 +217,9 @@ func (grid *RegularGrid) IntersectQuad(r Ray) (*Quad, float32) {
 	for {
 		hitPoint := Add(newRay.From, Mul(rayDir, t))
 
-		cellX := (uint)(math.Floor((float64)(hitPoint.x-grid.Min.x) / (float64)(grid.Resolution)))
-		cellY := (uint)(math.Floor((float64)(hitPoint.z-grid.Min.z) / (float64)(grid.Resolution)))
-
 		// clamp to bounds
-		cellX = (uint)(math.Min((float64)(cellX), (float64)(len(grid.Grid[0])-1)))
-		cellX = (uint)(math.Min((float64)(cellY), (float64)(len(grid.Grid)-1)))
+		cellX := clampCell(math.Floor((float64)(hitPoint.x-grid.Min.x)/(float64)(grid.Resolution)), len(grid.Grid[0]))
+		cellY := clampCell(math.Floor((float64)(hitPoint.z-grid.Min.z)/(float64)(grid.Resolution)), len(grid.Grid))
 
 		tMin := (float32)(math.Inf(1))
 		var resultQuad *Quad
@@ -253,10 +250,26 @@ func (grid *RegularGrid) IntersectQuad(r Ray) (*Quad, float32) {
 	return nil, -1
 }
 
+// clampCell converts a cell coordinate to an index of a row or column of count cells.
+func clampCell(coord float64, count int) uint {
+	if !(coord > 0) {
+		return 0
+	}
+	if coord > (float64)(count-1) {
+		return (uint)(count - 1)
+	}
+	return (uint)(coord)
+}
+
 func (grid *RegularGrid) GetRegion(min Vector3f, max Vector3f) []*Quad {
 	// clamp input to grid size:
 	min = Vector3f{(float32)(math.Max((float64)(min.x), (float64)(grid.Min.x))), 0, (float32)(math.Max((float64)(min.z), (float64)(grid.Min.z)))}
 	max = Vector3f{(float32)(math.Min((float64)(max.x), (float64)(grid.Max.x))), 0, (float32)(math.Min((float64)(max.z), (float64)(grid.Max.z)))}
+
+	// a region that does not meet the grid is empty:
+	if !(min.x <= max.x && min.z <= max.z) {
+		return []*Quad{}
+	}
 
 	minXGridCoord := (uint)(math.Floor((float64)(min.x-grid.Min.x) / (float64)(grid.Resolution)))
 	minYGridCoord := (uint)(math.Floor((float64)(min.z-grid.Min.z) / (float64)(grid.Resolution)))
